@@ -1,13 +1,30 @@
 #!/usr/bin/env python3
 """Regenerates MANIFEST.json from the table below (keeps it valid at all times)."""
 import json, os
+TB = 'bit-vector model of the documented contract of the biodivine libraries for E-MIR (DESIGN.md 3.4; E-UNI runs the real libraries); networks with <= 3 variables (orchestration: 2); z3; MIR of the pinned nightly; std containers by model (DESIGN.md 3.3)'
 CLAIMED = {
+ 'C01': ('E-MIR: MIR -> z3 symbolic execution (kernels in merge mode with unwinding assertions; parser..eval_node..sanitize in fork mode) + E-UNI: universal-instance BDD equivalence by z3',
+         'Operators: every kernel of hctl_operators_eval.rs equals its semantic clause for all transition systems (n<=3). Dispatch: the real string entry point executed from MIR gives, for every operator applied to arbitrary symbolic child sets, the semantic clause (n=2; n=3 thorough). End to end: formulas up to depth 4 on universal instances decided against an independent explicit-state semantics for every colour. Counterexamples are replayed natively.', TB, '4/C01'),
+ 'C02': ('E-MIR fork mode on the extended entry points from MIR (symbolic wild-card and domain sets, colour bit for per-colour emptiness) + E-UNI',
+         'Quantifiers with domains, wild-cards, nested / repeated / empty-for-some-colours domains and the three README equivalences are solver obligations over the real code for all 2-variable transition systems and all context sets; the same families are decided on universal instances with the real libraries.', TB, '4/C02'),
+ 'C03': ('E-MIR inductive invariant per layer-2 function (colour dimension with invalid colours) + eval_node raw results + E-UNI on constrained instances',
+         'args inside the unit set imply results inside it for every layer-2 function executed from MIR; raw results of the entry points are inside the unit set and independent of auxiliary variables; result & not unit is unsatisfiable on instances whose regulation constraints exclude colours.', TB, '4/C03'),
+ 'C04': ('E-MIR fork mode over batches with nondeterministic HashMap/HashSet/heap-tie iteration order + E-UNI BDD miters between batch / single / sharing-disabled / repeated / observed runs',
+         'model_check_multiple_extended_formulae_dirty from MIR on batches of overlapping formulas: every position equals the semantics of its own formula under three global container-order policies (thorough: all permutations for pairs); natively: batch vs alone vs EvalContext without duplicates vs permuted list vs progress observer give identical BDDs.', TB + '; iteration orders: 3 policies (all permutations only for <=3 entries in the thorough tier)', '4/C04'),
+ 'C10': ('E-MIR fork mode with wild-cards bound to solver terms produced by the real evaluation of the replaced sub-formula + E-UNI miters',
+         'C[%p%] with %p% := raw result of psi equals C[psi] (1-2 simultaneous replacements) for all 2-variable transition systems; plain formulas through extended entry points with empty context equal the plain entry points; the same natively on universal instances.', TB + '; benchmark-size networks outside the claim', '4/C10'),
  'C11': ('E-MIR merge-mode bounded model checking of the real kernels from MIR (z3) + E-UNI BDD miters (z3)',
-         'Every fixed-point law, duality, monotonicity and reachability characterisation is a solver query over the MIR of the kernels in hctl_operators_eval.rs, for all transition systems with n<=3 variables, all unit sets (colour products) and all argument sets; unwinding assertions are discharged; the same laws are decided end to end on universal instances with the real libraries.',
-         'bit-vector model of the biodivine set operations (DESIGN.md 3.4); n<=3; z3; the MIR emitted by the pinned nightly; benchmark-size models are outside the claim', '4/C11'),
+         'Every fixed-point law, duality, monotonicity and reachability characterisation is a solver query over the MIR of the kernels in hctl_operators_eval.rs, for all transition systems with n<=3 variables, all unit sets (colour products) and all argument sets; unwinding assertions are discharged; the same laws are decided end to end on universal instances with the real libraries (incl. reach_backward / trap_forward / Reachability::reach_bwd).', TB + '; benchmark-size models are outside the claim', '4/C11'),
+ 'C12': ('E-MIR fork mode: pattern recognisers on all tree skeletons with symbolic names; eval_node on patterns / near-misses in every context (attractor search by contract) + E-UNI with the real ITGR/Xie-Beerel search',
+         'is_attractor_pattern / is_fixed_point_pattern are true iff the tree is exactly the pattern (all skeletons of the shape, symbolic names); patterns at top level, under operators, under quantifiers, inside restricted scopes, in batches and near-misses evaluate to the semantics of the formula as written.', TB, '4/C12'),
  'C13': ('E-MIR merge-mode bounded model checking of eval_ew/eval_aw from MIR (z3) + E-UNI equivalence with explicit semantics (z3)',
-         'eval_ew / eval_aw executed from MIR equal both definitions of weak until (E[U] or EG; greatest fixed point) for all transition systems with n<=3 variables; formulas containing EW/AW are decided end to end against the explicit semantics on universal instances.',
-         'as C11', '4/C13'),
+         'eval_ew / eval_aw executed from MIR equal both definitions of weak until (E[U] or EG; greatest fixed point) for all transition systems with n<=3 variables; formulas containing EW/AW are decided end to end against the explicit semantics on universal instances.', TB, '4/C13'),
+ 'C15': ('E-UNI: z3 miter sanitised vs raw vs semantics for k = depth..depth+2 + E-MIR: sanitizing entry points from MIR with the transfer_from contract',
+         'sanitised BDD == raw BDD == semantics for every colour, identical for every number of spare variable sets, in the canonical context of SymbolicAsyncGraph::new; sanitize_colored_vertices executed from MIR never reaches its unwrap failure (results independent of auxiliary variables).', TB, '4/C15'),
+ 'C18': ('E-MIR: model_check_formula_unsafe_ex and eval_node with a free symbolic steady-state set from MIR + E-UNI miters',
+         'on the fragment the variant equals the standard semantics and eval_node does not depend on the steady-state argument at all (two free symbols); on networks without steady states every formula agrees; natively: BDD miter unsafe_ex vs standard, restricted to steady-state-free colours outside the fragment.', TB, '4/C18'),
+ 'C20': ('E-UNI: result(state, colour) == explicit semantics on the transition system of that colour, for all colours (z3) + native runs on solver-enumerated instantiated networks + E-MIR colour non-interference',
+         'the slice of the parametrised answer at every colour equals the semantics of that colour\'s network; slices of solver-enumerated distinct colours equal model_check_formula on the instantiated fully specified networks; kernels are non-interfering between colours.', TB + '; benchmark models outside', '4/C20'),
 }
 NA = {
  'C16': 'zip / file I/O around the library BDD serialiser: nothing left to encode once File/ZipWriter/ZipArchive are stubbed (DESIGN.md 5)',
